@@ -148,4 +148,60 @@ theorem decode13_packKanji (ps : List (Nat × Nat)) (h : ∀ p ∈ ps, kanjiPair
   simp only [bind, Except.bind, List.flatMap_map]
   rw [flatMap_kanjiBytes ps h]
 
+section
+open Gzx.ECI
+theorem countBits_numeric (ver : Nat) : countBits .numeric ver = .ok (countWidth 0 ver) := by
+  by_cases h9 : ver ≤ 9 <;> by_cases h26 : ver ≤ 26 <;> simp [countBits, countWidth, Mode.countTable, h9, h26]
+theorem countBits_alnum (ver : Nat) : countBits .alphanumeric ver = .ok (countWidth 1 ver) := by
+  by_cases h9 : ver ≤ 9 <;> by_cases h26 : ver ≤ 26 <;> simp [countBits, countWidth, Mode.countTable, h9, h26]
+theorem countBits_byte (ver : Nat) : countBits .byte ver = .ok (countWidth 2 ver) := by
+  by_cases h9 : ver ≤ 9 <;> by_cases h26 : ver ≤ 26 <;> simp [countBits, countWidth, Mode.countTable, h9, h26]
+theorem countBits_kanji (ver : Nat) : countBits .kanji ver = .ok (countWidth 3 ver) := by
+  by_cases h9 : ver ≤ 9 <;> by_cases h26 : ver ≤ 26 <;> simp [countBits, countWidth, Mode.countTable, h9, h26]
+
+theorem countWidth_range (m ver : Nat) : 1 ≤ countWidth m ver ∧ countWidth m ver ≤ 32 := by
+  by_cases h9 : ver ≤ 9 <;> by_cases h26 : ver ≤ 26 <;>
+    (unfold countWidth; simp only [h9, h26, if_true, if_false]; split <;> omega)
+
+
+/-- `bits_byte_inv` (7.4.5): the bytes come back unchanged together with the charset that decodes
+    them — the current ECI entry if there is one … -/
+theorem parseLoop_byte_eci (reg : Registry) (ver : Nat) (hint : Hint) (fuel : Nat) (st : PSt) (e : Entry)
+    (he : st.eci = some e)
+    (bs : List Nat) (hb : ∀ b ∈ bs, b < 256) (hlen : bs.length < 2 ^ countWidth 2 ver) (rest : List Bool) :
+    parseLoop reg ver hint (fuel + 1) st (segment 4 (countWidth 2 ver) bs.length (packBytes bs) ++ rest) =
+      parseLoop reg ver hint fuel
+        { st with segs := st.segs ++ [.text (.named e.name) bs], byteSegs := st.byteSegs ++ [bs] } rest := by
+  conv => lhs; unfold parseLoop
+  have ⟨c1, c32⟩ := countWidth_range 2 ver
+  simp only [segment, List.append_assoc]
+  have hl : ¬ (natToBits 4 4 ++ (natToBits (countWidth 2 ver) bs.length ++ (packBytes bs ++ rest))).length < 4 := by
+    simp only [List.length_append, natToBits_length]; omega
+  simp only [hl, if_false]
+  rw [readBitsF_natToBits_lt 4 4 _ (by omega) (by omega) (by decide)]
+  simp only [bind, Except.bind, modeForBits, wrapF, countBits_byte]
+  rw [readBitsF_natToBits_lt _ _ _ c1 c32 hlen]
+  have hfit : ¬ 8 * bs.length > (List.flatMap (natToBits 8) bs ++ rest).length := by
+    simp only [List.length_append, flatMap_natToBits_length]; omega
+  simp only [decodeByte, packBytes, hfit, if_false, bind, Except.bind,
+    readGroups_pack 8 (by omega) (by omega) bs hb rest [], List.nil_append, he]
+
+
+/-- a payload followed by the full terminator and arbitrary padding, or by a shortened terminator -/
+def Terminated (tail : List Bool) : Prop := (∃ pad, tail = List.replicate 4 false ++ pad) ∨ tail.length < 4
+
+theorem parseLoop_terminated (reg : Registry) (ver : Nat) (hint : Hint) (fuel : Nat) (st : PSt)
+    (tail : List Bool) (ht : Terminated tail) : parseLoop reg ver hint (fuel + 1) st tail = .ok st := by
+  rcases ht with ⟨pad, rfl⟩ | h
+  · unfold parseLoop
+    have hl : ¬ (List.replicate 4 false ++ pad).length < 4 := by simp
+    simp only [hl, if_false]
+    have : List.replicate 4 false = natToBits 4 0 := by decide
+    rw [this, readBitsF_natToBits_lt 4 0 _ (by omega) (by omega) (by decide)]
+    simp [bind, Except.bind, modeForBits, wrapF]
+  · unfold parseLoop
+    simp [h]
+
+end
+
 end Gzx.QRDec
